@@ -112,6 +112,7 @@ func init() {
 type rePiece struct {
 	lit   *Term // literal text (nil for a group)
 	group bool
+	lazy  bool // (.*?) instead of (.*)
 }
 
 const reMetaChars = `\.+?()[]{}|^$`
@@ -148,6 +149,9 @@ func (i *Interp) compileSymbolicRegexp(pat *Term, must bool) value {
 					anchoredStart = true
 				case s[k] == '$' && fi == len(frags)-1 && k == len(s)-1:
 					anchoredEnd = true
+				case strings.HasPrefix(s[k:], "(.*?)"):
+					pieces = append(pieces, rePiece{group: true, lazy: true})
+					k += 4
 				case strings.HasPrefix(s[k:], "(.*)"):
 					pieces = append(pieces, rePiece{group: true})
 					k += 3
@@ -162,7 +166,7 @@ func (i *Interp) compileSymbolicRegexp(pat *Term, must bool) value {
 			}
 		case f.Op == "re.quote":
 			addLit(f.Args[0])
-		case f.Op == "str.replace_all" && f.Args[1].Const && f.Args[1].S == "*" && f.Args[2].Const && f.Args[2].S == "(.*)":
+		case f.Op == "str.replace_all" && f.Args[1].Const && f.Args[1].S == "*" && f.Args[2].Const && (f.Args[2].S == "(.*)" || f.Args[2].S == "(.*?)"):
 			T := f.Args[0]
 			meta := TBool(false)
 			for k := 0; k < len(reMetaChars); k++ {
@@ -177,7 +181,7 @@ func (i *Interp) compileSymbolicRegexp(pat *Term, must bool) value {
 			parts := i.splitSym(T, TStr("*"), -1)
 			for k, p := range parts {
 				if k > 0 {
-					pieces = append(pieces, rePiece{group: true})
+					pieces = append(pieces, rePiece{group: true, lazy: f.Args[2].S == "(.*?)"})
 				}
 				addLit(p.(*Term))
 			}
@@ -196,13 +200,42 @@ func (i *Interp) compileSymbolicRegexp(pat *Term, must bool) value {
 	return tuple{p, iface{}}
 }
 
-// matchWild returns the match condition and the group contents.
-func matchWild(pieces []rePiece, name *Term) (*Term, []*Term) {
+// lastSplit splits s at the LAST occurrence of sub: fresh strings w1, w2 with the flat
+// equation s = w1 ++ sub ++ w2 and no occurrence of sub starting after |w1| (for an empty
+// sub the last occurrence is at the end). The equation is asserted only under contains(s, sub),
+// which is returned.
+func (i *Interp) lastSplit(s, sub *Term) (*Term, *Term, *Term) {
+	w1, w2 := i.fresh("$lw1", SStr, 0), i.fresh("$lw2", SStr, 0)
+	c := StrContains(s, sub)
+	tail := StrConcat(sub, w2)
+	later := StrContains(StrSubstr(tail, TInt(1), IntBin("-", StrLenInt(tail), TInt(1))), sub)
+	empty := Eq(sub, TStr(""))
+	def := And(Eq(s, StrConcat(StrConcat(w1, sub), w2)), Or(And(empty, Eq(w2, TStr(""))), And(Not(empty), Not(later))))
+	i.pc = append(i.pc, Or(Not(c), def))
+	return c, w1, w2
+}
+
+// lastIndexOf is strings.LastIndex over terms.
+func (i *Interp) lastIndexOf(s, sub *Term) *Term {
+	if s.Const && sub.Const {
+		return TInt(int64(strings.LastIndex(s.S, sub.S)))
+	}
+	c, w1, _ := i.lastSplit(s, sub)
+	return Ite(c, StrLenInt(w1), TInt(-1))
+}
+
+// matchWild returns the match condition and the group contents. Go's regexp prefers,
+// leftmost group first, the longest text for (.*) and the shortest for (.*?).
+func (i *Interp) matchWild(pieces []rePiece, name *Term) (*Term, []*Term) {
 	var lits []*Term
 	cur := TStr("")
 	ng := 0
+	firstLazy := false
 	for _, p := range pieces {
 		if p.group {
+			if ng == 0 {
+				firstLazy = p.lazy
+			}
 			lits = append(lits, cur)
 			cur = TStr("")
 			ng++
@@ -224,6 +257,12 @@ func matchWild(pieces []rePiece, name *Term) (*Term, []*Term) {
 		l0, l1, l2 := StrLenInt(lits[0]), StrLenInt(lits[1]), StrLenInt(lits[2])
 		mid := StrSubstr(name, l0, IntBin("-", IntBin("-", n, l0), l2))
 		ok := And(And(And(StrPrefixOf(lits[0], name), StrSuffixOf(lits[2], name)), IntCmp(">=", n, IntBin("+", IntBin("+", l0, l1), l2))), StrContains(mid, lits[1]))
+		// the first group decides the split: shortest (first occurrence of the middle
+		// literal) when lazy, longest (last occurrence) when greedy
+		if !firstLazy {
+			_, w1, w2 := i.lastSplit(mid, lits[1])
+			return ok, []*Term{w1, w2}
+		}
 		idx := StrIndexOf(mid, lits[1], TInt(0))
 		w1 := StrSubstr(mid, TInt(0), idx)
 		w2 := StrSubstr(mid, IntBin("+", idx, l1), StrLenInt(mid))
@@ -237,7 +276,7 @@ func (i *Interp) symbolicRegexpMatch(o *opaque, s *Term) value {
 	if o.kind != "wild" {
 		fault("regexp match on symbolic input (pattern %s)", termShort(o.pat))
 	}
-	ok, _ := matchWild(o.pieces, s)
+	ok, _ := i.matchWild(o.pieces, s)
 	return ok
 }
 
@@ -249,7 +288,7 @@ func (i *Interp) symbolicRegexpSubmatch(o *opaque, s *Term) value {
 		v := i.compileSymbolicRegexp(o.pat, true)
 		o = (*v.(*value)).(*opaque)
 	}
-	ok, groups := matchWild(o.pieces, s)
+	ok, groups := i.matchWild(o.pieces, s)
 	if !i.branch(ok) {
 		return []value(nil)
 	}
